@@ -699,10 +699,28 @@ func (c *Ctx) autoOpts(info *types.Info, e ast.Expr) *canonOpts {
 // isIndexLoop: `for v := e; v <op> bound; v++ / v-- / v += k` - a counting loop whose condition only bounds the counter.
 func isIndexLoop(info *types.Info, p *ast.ForStmt) bool {
 	as, ok := p.Init.(*ast.AssignStmt)
-	if !ok || as.Tok != token.DEFINE || len(as.Lhs) != 1 {
+	if !ok || as.Tok != token.DEFINE || len(as.Lhs) < 1 {
 		return false
 	}
 	v := identObj(info, as.Lhs[0])
+	// `for i, xs := 0, f(); i < len(xs); i++`: the counter is the variable the post statement steps
+	if len(as.Lhs) > 1 {
+		var stepped types.Object
+		switch post := p.Post.(type) {
+		case *ast.IncDecStmt:
+			stepped = identObj(info, post.X)
+		case *ast.AssignStmt:
+			if len(post.Lhs) == 1 {
+				stepped = identObj(info, post.Lhs[0])
+			}
+		}
+		v = nil
+		for _, l := range as.Lhs {
+			if o := identObj(info, l); o != nil && o == stepped {
+				v = o
+			}
+		}
+	}
 	if v == nil {
 		return false
 	}
